@@ -434,3 +434,134 @@ func genSysAgg(g gen, o vh.Opts) []string {
 	}
 	return lines
 }
+
+// ---------------------------------------------------------------- bulks into one active fraction (child)
+// sysbulks docs=<mid:rid:svc,...> cuts=<i,j,...> : one ACTIVE fraction; layout A: all documents in ONE bulk; layout B: the
+// documents arrive in several bulks (cut before index i, j, ...) with a search between the bulks (which materialises the
+// token LID lists), then the same searches: every limit 1..n, both orders, every query; then both are sealed and searched
+// again.  Documents of the same millisecond with different RIDs arrive in different bulks, out of RID order.
+
+func runSysBulks(root, line string) (resp sysResp) {
+	defer func() {
+		if r := recover(); r != nil {
+			resp.Err = "panic: " + fmt.Sprint(r)
+		}
+	}()
+	m := kv(strings.Fields(line)[1:])
+	var docs []sdoc
+	for _, e := range splitList(m["docs"], ",") {
+		p := strings.Split(e, ":")
+		docs = append(docs, sdoc{seq.ID{MID: seq.MID(atou(p[0])), RID: seq.RID(atou(p[1]))}, p[2]})
+	}
+	var cuts []int
+	for _, e := range splitList(m["cuts"], ",") {
+		cuts = append(cuts, atoi(e))
+	}
+	dir, err := os.MkdirTemp(root, "bulks")
+	if err != nil {
+		resp.Err = err.Error()
+		return
+	}
+	defer os.RemoveAll(dir)
+	var fms []*fracmanager.FracManager
+	defer func() {
+		for _, fm := range fms {
+			fm.WaitIdle()
+			fm.Stop()
+		}
+	}()
+	star, _ := parser.ParseSeqQL(seq.TokenAll+":*", seq.TestMapping)
+	svcA, _ := parser.ParseSeqQL("service:a", seq.TestMapping)
+	searchAll := func(fm *fracmanager.FracManager) string {
+		var out []string
+		for qi, ast := range []*parser.ASTNode{star.Root, svcA.Root} {
+			for _, desc := range []bool{true, false} {
+				for limit := 1; limit <= len(docs); limit++ {
+					p := processor.SearchParams{AST: ast, From: 0, To: seq.MID(1 << 40), Limit: limit, WithTotal: limit%2 == 0, Order: order(desc)}
+					q, err := fracmanager.NewSearcher(2, fracmanager.SearcherCfg{}).SearchDocs(context.Background(), fm.GetAllFracs(), p)
+					if err != nil {
+						out = append(out, "err")
+						continue
+					}
+					out = append(out, fmt.Sprintf("q%d desc=%v limit=%d: %s/%d", qi, desc, limit, fmtIDs(q.IDs.IDs()), q.Total))
+				}
+			}
+		}
+		return strings.Join(out, " ; ")
+	}
+	appendBulk := func(fm *fracmanager.FracManager, ds []sdoc) error {
+		dp := frac.NewDocProvider()
+		for _, d := range ds {
+			dp.Append([]byte(`{"service":"`+d.svc+`"}`), nil, d.id, seq.Tokens("_all_:", "service:"+d.svc))
+		}
+		dm, mm := dp.Provide()
+		if err := fm.Append(context.Background(), dm, mm); err != nil {
+			return err
+		}
+		fm.WaitIdle()
+		return nil
+	}
+	fmA, err := newFM(filepath.Join(dir, "a"))
+	if err != nil {
+		resp.Err = err.Error()
+		return
+	}
+	fms = append(fms, fmA)
+	fmB, err := newFM(filepath.Join(dir, "b"))
+	if err != nil {
+		resp.Err = err.Error()
+		return
+	}
+	fms = append(fms, fmB)
+	if err := appendBulk(fmA, docs); err != nil {
+		resp.Err = err.Error()
+		return
+	}
+	lo := 0
+	for _, c := range append(cuts, len(docs)) {
+		if c > lo {
+			if err := appendBulk(fmB, docs[lo:c]); err != nil {
+				resp.Err = err.Error()
+				return
+			}
+			searchAll(fmB) // a search between the bulks
+			lo = c
+		}
+	}
+	a1, b1 := searchAll(fmA), searchAll(fmB)
+	fmA.SealForcedForTests()
+	fmB.SealForcedForTests()
+	a2, b2 := searchAll(fmA), searchAll(fmB)
+	resp.A = "active: " + a1 + " ; sealed: " + a2
+	resp.B = []string{"active: " + b1 + " ; sealed: " + b2}
+	return
+}
+
+func genSysBulks(g gen, o vh.Opts) []string {
+	var lines []string
+	for c := 0; c < o.Pick(25, 250); c++ {
+		n := g.r.Range(3, 9)
+		seen := map[seq.ID]bool{}
+		var docs []string
+		mids := []int{5, 5, 5, 6, 7, 7, 9}
+		for len(docs) < n {
+			id := seq.ID{MID: seq.MID(mids[g.r.Intn(len(mids))]), RID: seq.RID(g.r.Intn(6))}
+			if seen[id] {
+				continue
+			}
+			seen[id] = true
+			docs = append(docs, fmt.Sprintf("%d:%d:%s", id.MID, id.RID, []string{"a", "a", "b"}[g.r.Intn(3)]))
+		}
+		var cuts []string
+		for i := 1; i < n; i++ {
+			if g.r.Chance(1, 2) {
+				cuts = append(cuts, fmt.Sprint(i))
+			}
+		}
+		if len(cuts) == 0 {
+			cuts = []string{fmt.Sprint(1 + g.r.Intn(n-1))}
+		}
+		lines = append(lines, fmt.Sprintf("sysbulks docs=%s cuts=%s", strings.Join(docs, ","), strings.Join(cuts, ",")))
+	}
+	return lines
+}
